@@ -31,11 +31,12 @@ class TimeInterval:
         """Check to make sure end is after start"""
         super().__init__()
         end = end if isinstance(end, datetime) else start + end
+        start, end = self._default_to_zulu(start), self._default_to_zulu(end)
 
         if end < start:
             raise ValueError(f'end date {end} must not be less than start date {start}')
 
-        self.start, self.end = self._default_to_zulu(start), self._default_to_zulu(end)
+        self.start, self.end = start, end
 
     def _default_to_zulu(self, dt: datetime) -> datetime:
         """Add Zulu/UTC as timezone, if timezone not present"""
